@@ -344,7 +344,7 @@ func runC15(c *explore.Ctx) {
 			c.Sample(my, func() string { return cas })
 			e, err := newC15Env()
 			if err != nil {
-				c.R.Error = "C15 environment: " + err.Error()
+				envFail(c, "C15 environment: "+err.Error())
 				return false
 			}
 			c.R.States++
